@@ -146,6 +146,10 @@ class Run:
         td = bool(st.get('td', True))
         how = st.get('how', 'declare')
         e = {'ev': 'q', 'kind': kind, 'p': p, 'cmp': cmp_, 'td': td, 'how': how}
+        ip = self.interposer
+        if ip is not None and ip.scope_query and threading.get_ident() not in self.sinks and kind != 'walk':
+            # (walk is left out: like os.walk it skips the directories it cannot list instead of raising)
+            ip.in_query = True
         try:
             if kind == 'exists':
                 v = builder.exists(fn)
@@ -195,6 +199,9 @@ class Run:
             e['res'] = {'ok': True, 'v': v}
         except Exception as x:      # OSError subclasses, RuntimeError (fenced) ...
             e['res'] = {'ok': False, 'err': x.__class__.__name__}
+        if ip is not None and ip.scope_query:
+            ip.in_query = False
+            e['fault'] = bool(ip.take_fault())      # an injected OSError hit a read-only call behind this query
         sink = self.sinks.get(threading.get_ident())
         if sink is not None:
             self.gseq += 1
@@ -364,6 +371,8 @@ class Run:
                             # "probe all" spells some of the paths differently (bytes, PathLike, relative, x/../, //, ./)
                             q['spell'] = (None, None, 'bytes', 'pathlike', 'rel', 'dblsep', 'dotdot', 'dot')[
                                 int(digest([p, kind, fr.n]), 16) % 8]
+                            if q['spell'] == 'dblsep' and self.sc['oracle'].get('q_lead2') and int(digest([p, kind]), 16) % 2:
+                                q['spell'] = 'lead2'
                         acc.append(self.obs_of_res(self.query(builder, fr, q)))
                 fr.obs.append(['probe', digest(acc)])
             elif s in ('bf', 'sb'):
@@ -788,6 +797,16 @@ class Run:
             if os.path.isfile(sb.cache_file()):
                 sb.set_mtime(sb.cache_file(), sb.tick())
         disk2 = sb.snapshot()
+        if step.get('opaque') and out['out'] == 'raised':
+            # the threads of this build issued calls that depend on each other (one target lies below another):
+            # no sequential order explains them and C09 does not cover them, but the rollback contract (C02/C03)
+            # holds regardless - the build is judged as a root function that did something unspecified and raised
+            lo = max(i for i, e in enumerate(self.events) if e.get('ev') == 'root_begin')
+            hi = max(i for i, e in enumerate(self.events) if e.get('ev') == 'fn_end')
+            if lo < hi:
+                del self.events[lo + 1:hi]
+        elif step.get('opaque'):
+            self.unjudged = True
         self.ev(ev='build_end', inv=state['invoked'], disk=disk2, cser=self._cser(disk2),
                 tmp=sb.tmp_entries() == [], **out)
         if step.get('stale_after') and self.stale_builders:
@@ -955,6 +974,11 @@ def _spell(target, how):
     if how == 'dblsep':
         d, b = os.path.split(target)
         return d + '//' + b
+    if how == 'lead2':
+        # exactly two leading slashes (plus a doubled separator inside): POSIX lets an implementation give
+        # this a meaning of its own, so normpath keeps it - on Linux it is the same file
+        d, b = os.path.split(target)
+        return '/' + d + '//' + b
     if how == 'dotdot':
         d, b = os.path.split(target)
         return os.path.join(d, 'zz', '..', b)
@@ -1001,4 +1025,5 @@ def run_scenario(scenario, parent_dir=None):
         if scenario.get('fault_calls'):
             kw['faultable'] = set(scenario['fault_calls'])
         ip = Interposer(fault_at=scenario.get('fault_at'), shuffle_listdir=shuf, **kw)
+        ip.scope_query = scenario.get('fault_scope') == 'query'
     return Run(scenario, parent_dir, interposer=ip).run()
